@@ -151,3 +151,82 @@ def if_chain(ifstmt):
         links.append((n.child("cond"), n.child("then")))
         n = n.child("else")
     return links, n
+
+
+def prior_exit_guards(node):
+    """Guards established by earlier siblings of the form  if(cond){ ...; continue/break/return/goto }
+    (no else) in the compound statements that enclose `node`, stopping at the function body or at the
+    body of the innermost loop for 'continue'/'break' exits.  Yields (cond, False, if-stmt, between)
+    where `between` are the sibling statements executed after the if and before the one holding node."""
+    c = node
+    p = node.parent
+    out = []
+    while p is not None:
+        if p.k == "CompoundStmt":
+            idx = None
+            for i, s in enumerate(p.kids):
+                if s is c:
+                    idx = i
+                    break
+            if idx is not None:
+                for i in range(idx - 1, -1, -1):
+                    s = p.kids[i]
+                    if s.k == "IfStmt" and s.child("else") is None and s.child("then") is not None \
+                            and ends_in_jump(s.child("then")):
+                        out.append((s.child("cond"), False, s, p.kids[i + 1:idx]))
+        c, p = p, p.parent
+    return out
+
+
+def assigned_vars(stmts):
+    """decl ids of variables assigned / incremented anywhere in the statements"""
+    out = set()
+    for s in stmts:
+        for n in s.walk():
+            tgt = None
+            if n.k in ("BinaryOperator", "CompoundAssignOperator") and n.d["op"] in (
+                    "=", "+=", "-=", "*=", "/=", "%=", "&=", "|=", "^=", "<<=", ">>="):
+                tgt = n.kids[0].strip()
+            elif n.k == "UnaryOperator" and n.d["op"] in ("++", "--"):
+                tgt = n.kids[0].strip()
+            if tgt is not None and tgt.k == "DeclRefExpr":
+                out.add(tgt.d["did"])
+    return out
+
+
+def local_defs(fn, did):
+    """All definitions (init or assignment RHS nodes) of local variable `did` in function fn.
+    Returns list of (rhs node or None for ++/--/compound, defining node)."""
+    defs = []
+    for n in fn.body.walk():
+        if n.k == "DeclStmt":
+            for dd in n.d["decls"]:
+                if dd.get("did") == did and dd.get("init"):
+                    for kid in n.kids:
+                        if kid.role == "declinit" and kid.decl is dd:
+                            defs.append((kid, n))
+        elif n.k == "BinaryOperator" and n.d["op"] == "=":
+            l = n.kids[0].strip()
+            if l.k == "DeclRefExpr" and l.d["did"] == did:
+                defs.append((n.kids[1], n))
+        elif n.k == "CompoundAssignOperator" or (n.k == "UnaryOperator" and n.d["op"] in ("++", "--")):
+            l = n.kids[0].strip()
+            if l.k == "DeclRefExpr" and l.d["did"] == did:
+                defs.append((None, n))
+        elif n.k == "UnaryOperator" and n.d["op"] == "&":
+            l = n.kids[0].strip()
+            if l.k == "DeclRefExpr" and l.d["did"] == did:
+                defs.append((None, n))
+    return defs
+
+
+def array_bound(prog, base):
+    """Constant element count of the array an (un-decayed) base expression denotes, or None."""
+    import re
+    b = base.strip()
+    m = re.search(r"\[(\d+)\]$", b.ty or "")
+    if m and b.k != "ArraySubscriptExpr":
+        return int(m.group(1))
+    if m:
+        return int(m.group(1))
+    return None
